@@ -543,7 +543,14 @@ func (c *Ctx) Run(steps []string) []string {
 		r := c.Step(s)
 		c.w.curSwap = c.id
 		c.w.flushCrashNote()
-		c.w.note(Obs{Kind: "step", A: map[string]string{"s": s, "r": r, "state": c.state(), "btc": fmt.Sprint(c.w.btc.height), "lbtc": fmt.Sprint(c.w.lbtc.height)}})
+		act := ""
+		if !c.w.dead && c.id != "" {
+			act = "0"
+			if _, ok := c.w.svc.VerifActiveSwaps()[c.id]; ok {
+				act = "1"
+			}
+		}
+		c.w.note(Obs{Kind: "step", A: map[string]string{"s": s, "r": r, "state": c.state(), "btc": fmt.Sprint(c.w.btc.height), "lbtc": fmt.Sprint(c.w.lbtc.height), "active": act}})
 		out = append(out, r)
 	}
 	return out
